@@ -60,3 +60,11 @@ Proof. exact central_C04. Qed.
 Print Assumptions C04_central_partial.
 Example C04_central_nonvacuous : wf_C04 sample_C04 = true.
 Proof. exact sample_C04_wf. Qed.
+
+(* Slow start (input kind 7): with a backend inside its slow-start ramp, the least-connection pick is minimal with
+   respect to the CURRENT weights — the weights checkSlowStart has just computed (check_ss), which for a ramping
+   backend are below its target weight — for every connection-count map cs; -1 iff nothing is eligible. *)
+Theorem C04_slowstart_current_weight : forall cs T l p l',
+  pick2 (wlc_bal_c cs) T l = (p, l') -> minimal_pick (wcfg7 cs (check_ss T l)) p = true.
+Proof. exact pick7_minimal. Qed.
+Print Assumptions C04_slowstart_current_weight.
